@@ -1,0 +1,9 @@
+//go:build verif
+
+package mixins
+
+// Contracts for govc (see /verif/DESIGN.md §5 C20). Comment-only; compiled only
+// under the build tag "verif".
+//
+// The mixins only build error values: nothing that existed before a call is written.
+//@ sweep[C20] assigns nothing: *
